@@ -25,6 +25,9 @@ fn terms(tier: Tier) -> Vec<T> {
     // a slot that can only become redundant in place
     t.push(node2("mul", v(0), T { op: "0", args: vec![] }));
     t.push(node2("add", node2("mul", v(0), T { op: "0", args: vec![] }), v(1)));
+    // ... below a parent that stands between it and a binder whose rule asks whether the bound slot is still mentioned
+    t.push(bind1("sum", 100, node1("neg", node2("mul", v(100), T { op: "0", args: vec![] }))));
+    t.push(bind1("sum", 100, node2("add", node2("mul", v(100), T { op: "0", args: vec![] }), v(0))));
     t.extend(start_terms(if tier == Tier::Quick { 2 } else { 3 }));
     t
 }
@@ -44,6 +47,7 @@ fn rule_sets() -> Vec<Vec<usize>> {
     v.push(vec![idx("add-zero"), idx("mul-zero"), idx("mul-one")]);
     v.push(vec![idx("sum-rebind"), idx("let-var")]);
     v.push(vec![idx("mul-zero-rename"), idx("add-comm")]);
+    v.push(vec![idx("mul-zero-rename"), idx("sum-const")]);
     v.push((0..n).collect());
     v.push(vec![]);
     v
@@ -171,7 +175,7 @@ fn eqsat_cfgs() -> Vec<Cfg> {
 const DELAYED_LIMIT_MS: u64 = 8;
 
 /// after a run stopped as Saturated: one more application of every rule changes nothing
-fn check_saturated(eg: &mut EGraph<Ar>, rules_idx: &[usize], ctx: &str, fails: &mut Vec<Fail>, evals: &mut u64) {
+fn check_saturated(eg: &mut EGraph<Ar>, rules_idx: &[usize], ctx: &str, start: &RecExpr<Ar>, fails: &mut Vec<Fail>, evals: &mut u64) {
     let known: Vec<AppliedId> = eg.ids().iter().map(|i| eg.mk_identity_applied_id(*i)).collect();
     // both sides of every match are already equal (read-only, for right sides without substitution brackets / new binders)
     let pool = rule_pool();
@@ -205,6 +209,27 @@ fn check_saturated(eg: &mut EGraph<Ar>, rules_idx: &[usize], ctx: &str, fails: &
             if before != after {
                 fails.push(("saturated-but-not".into(), format!("reported Saturated but applying the rules once more changes the e-graph {ctx}"), format!("before {before} after {after}")));
             }
+        }
+    }
+    if !fails.is_empty() {
+        return;
+    }
+    // Saturation is a statement about the terms and equalities the e-graph represents, not about work it has put off:
+    // inserting the start term once more (it was inserted at the beginning, terms are never removed, so this adds
+    // nothing) must not enable any rule.  The step is judged only when the insertion left the number of live classes
+    // as it was, i.e. when the term really was taken as known.
+    let live = eg.ids().len();
+    let st = start.clone();
+    if catch(|| eg.add_expr(st)).is_err() || eg.ids().len() > live {
+        return;
+    }
+    let known: Vec<AppliedId> = eg.ids().iter().map(|i| eg.mk_identity_applied_id(*i)).collect();
+    let before = fingerprint(eg, &known);
+    if let Ok(_) = catch(|| apply_rewrites(eg, &rules)) {
+        *evals += 1;
+        let after = fingerprint(eg, &known);
+        if before != after {
+            fails.push(("saturated-but-not".into(), format!("reported Saturated, but after the start term was inserted once more (it is represented already) the rules change the e-graph: work had been put off {ctx}"), format!("before {before} after {after}")));
         }
     }
 }
@@ -315,7 +340,7 @@ fn run_runner(start: &T, rules_idx: &[usize], c: Cfg) -> (Vec<Fail>, u64, u64, V
             match &rep.stop_reason {
                 StopReason::Saturated => {
                     goals |= 1;
-                    check_saturated(&mut runner.egraph, rules_idx, &ctx, &mut fails, &mut evals);
+                    check_saturated(&mut runner.egraph, rules_idx, &ctx, &re, &mut fails, &mut evals);
                 }
                 StopReason::IterationLimit => {
                     goals |= 2;
@@ -368,7 +393,8 @@ fn run_eqsat_cfg(start: &T, rules_idx: &[usize], c: Cfg) -> (Vec<Fail>, u64, u64
     let cl = calls.clone();
     let hookno = c.hook;
     let mut eg = EGraph::<Ar>::default();
-    eg.add_expr(ar_recexpr(start));
+    let re = ar_recexpr(start);
+    eg.add_expr(re.clone());
     let t_start = std::time::Instant::now();
     let r = catch(|| {
         run_eqsat(&mut eg, rules, c.iter_limit, if c.time_zero { 0 } else { GENEROUS_TIME_LIMIT_S as usize }, move |eg: &mut EGraph<Ar>| {
@@ -421,7 +447,7 @@ fn run_eqsat_cfg(start: &T, rules_idx: &[usize], c: Cfg) -> (Vec<Fail>, u64, u64
             match &rep.stop_reason {
                 StopReason::Saturated => {
                     goals |= 1;
-                    check_saturated(&mut eg, rules_idx, &ctx, &mut fails, &mut evals);
+                    check_saturated(&mut eg, rules_idx, &ctx, &re, &mut fails, &mut evals);
                 }
                 StopReason::IterationLimit => {
                     goals |= 2;
@@ -479,7 +505,7 @@ impl Prop for SaturateProp {
         vec!["stop_saturated", "stop_iteration_limit", "stop_node_limit", "stop_time_limit", "stop_other_hook", "apply_rewrites_false_seen", "change_without_new_nodes", "hook_shrank_the_graph_from_above_the_node_limit_to_within_it"]
     }
     fn rule(&self) -> String {
-        "Start terms (binder-heavy specials, three-slot terms whose class gains symmetries stepwise, all terms of size <=2 (thorough 3)) x rule sets (each single rule of the model-valid rule pool, 8 chosen pairs/triples, the full pool, the empty set). (1) apply_rewrites up to 5 times: whenever it returns false an independent fingerprint (node count, per-class slots / e-nodes / symmetry count by brute-force eq over all permutations, canonical form of every known invocation) taken before must equal the one taken after. (2) Runner::run and (3) run_eqsat under every combination of iter_limit 0/1/2/5, node_limit 1/10/10000, time_limit 0 / 2 s (far above what any enumerated run needs; the harness clock brackets the call) and hooks none / fail at call 1 / fail at call 2 / fail at 8 nodes / insert a new term on every call / insert and fail at call 2 / union neighbouring classes on every call (the e-graph shrinks; node limits 3..12): report.egraph_nodes equals the e-graph's, iterations <= iter_limit+2, the stop reason is true of the final state (limit really exceeded, hook really failed, TimeLimit only with limit 0 or when the call really lasted that long), and after Saturated one more application of all rules changes nothing and every match of every rule already has equal sides. A run that does not return within 30 s (each takes well under a millisecond when the property holds) or takes the worker process down is a violation (the loop must end within the iteration bound plus a constant). Non-trivial = runs, distinct states = (reason, iterations, nodes).".into()
+        "Start terms (binder-heavy specials, three-slot terms whose class gains symmetries stepwise, all terms of size <=2 (thorough 3)) x rule sets (each single rule of the model-valid rule pool, 8 chosen pairs/triples, the full pool, the empty set). (1) apply_rewrites up to 5 times: whenever it returns false an independent fingerprint (node count, per-class slots / e-nodes / symmetry count by brute-force eq over all permutations, canonical form of every known invocation) taken before must equal the one taken after. (2) Runner::run and (3) run_eqsat under every combination of iter_limit 0/1/2/5, node_limit 1/10/10000, time_limit 0 / 2 s (far above what any enumerated run needs; the harness clock brackets the call) and hooks none / fail at call 1 / fail at call 2 / fail at 8 nodes / insert a new term on every call / insert and fail at call 2 / union neighbouring classes on every call (the e-graph shrinks; node limits 3..12): report.egraph_nodes equals the e-graph's, iterations <= iter_limit+2, the stop reason is true of the final state (limit really exceeded, hook really failed, TimeLimit only with limit 0 or when the call really lasted that long), and after Saturated one more application of all rules changes nothing and every match of every rule already has equal sides; the same once more after the start term was inserted a second time (it is represented already, so the e-graph denotes what it denoted; judged only when that insertion adds no class): saturation is about the represented terms, not about work the e-graph has put off. A run that does not return within 30 s (each takes well under a millisecond when the property holds) or takes the worker process down is a violation (the loop must end within the iteration bound plus a constant). Non-trivial = runs, distinct states = (reason, iterations, nodes).".into()
     }
     fn assumptions(&self) -> Vec<String> {
         vec!["time limits are only 0 or unbounded, the two values whose outcome does not depend on the wall clock".into()]
